@@ -67,6 +67,11 @@ func PakAddressToBus(pakAddr uint32) (busAddr uint32, err error) {
 		busAddr = (pakAddr - 0xE00000) & 0x07FFFF
 		offs := busAddr & 0x7FFF
 		bank := busAddr >> 15
+		if bank >= 0xE {
+			// banks $7E-$7F are WRAM; the last two SRAM banks are only visible at $FE-$FF:
+			busAddr = ((0xF0 + bank) << 16) + offs
+			return
+		}
 		busAddr = ((0x70 + bank) << 16) + offs
 		return
 	} else if pakAddr >= 0xEE0000 && pakAddr < 0xF00000 {
